@@ -21,13 +21,29 @@ type Spine struct {
 // concrete walks through embedding wrappers (derived types embedding the interface) to the *list / *object.
 func concrete(v interface{}) reflect.Value {
 	rv := reflect.ValueOf(v)
-	for i := 0; i < 8; i++ {
+	for i := 0; i < 16; i++ {
 		if rv.Kind() == reflect.Interface || rv.Kind() == reflect.Ptr {
 			if rv.IsNil() {
 				return reflect.Value{}
 			}
 			rv = rv.Elem()
 			continue
+		}
+		if rv.Kind() == reflect.Struct {
+			if f := rv.FieldByName("val"); f.IsValid() && (f.Kind() == reflect.Slice || f.Kind() == reflect.Map) {
+				break
+			}
+			// a user type embedding the List/Object interface (or a pointer to such a type): descend
+			found := false
+			for j := 0; j < rv.NumField(); j++ {
+				if rv.Type().Field(j).Anonymous && (rv.Field(j).Kind() == reflect.Interface || rv.Field(j).Kind() == reflect.Ptr) {
+					rv, found = rv.Field(j), true
+					break
+				}
+			}
+			if found {
+				continue
+			}
 		}
 		break
 	}
